@@ -702,6 +702,9 @@ def include_family(ctx, prop_id, checks, nontrivial, rule, extra=None, modes=(('
             if got is None:
                 continue
             if got != okval:
+                if sig and key == 'unjustified' and all(final_drop_signature(c, i) for i in got.split(',')) and known_open(prop_id, sig):
+                    kf[sig] += 1
+                    continue
                 ctx.violations.append(('%s: %s (case %s)' % (msg, got, c.key), write_replay(ctx, 'case_%s.txt' % c.key, c.text()), True))
         for key, sig, what in ((k, s, m) for k, _, m, s in checks if s):
             got = vv.get(key + '_' + sig.split('_')[-1]) if False else None
@@ -747,6 +750,29 @@ def known_f5(prop_id, key):
     return f
 
 
+def final_drop_signature(c, fid):
+    """known finding F4b: provider `fid` was kept for a consumer (named in whyIncluded) that the FINAL flow
+    recomputation either drops or re-matches to another concrete type, so that nothing `fid` outputs is
+    still an input of that consumer"""
+    fs = c.s7_funcs()
+    f = next((x for x in fs if x['id'] == fid), None)
+    if f is None:
+        return False
+    m = re.match(r'used_by_[a-z-]+:_[A-Za-z]+\((\d+)\)', f.get('why', ''))
+    if not m:
+        return False
+    g = next((x for x in fs if x['id'] == m.group(1)), None)
+    if g is None:
+        return False
+    if g['inc'] == '0':
+        return True
+    outs = set(ints(f['out']))
+    rm = dict(kvp.split('>') for kvp in (g['drm'].split(',') if g['drm'] != '-' else []))
+    ins = {int(rm.get(str(t), t)) for t in ints(g['in'])}
+    changed = any(a != b for a, b in rm.items())
+    return changed and not (ins & outs)
+
+
 @prop('C03')
 def c03(ctx):
     def extra(ctx, c, kf):
@@ -762,7 +788,7 @@ def c03(ctx):
             'excluded providers never appear in the real trace; non-trivial = at least one user provider excluded; distinct = provider lists')
     return include_family(ctx, 'C03',
                           [('required', 'ok', 'a Required provider is not in the bound chain', None),
-                           ('unjustified', '-', 'included provider(s) that nothing receives anything from', None)],
+                           ('unjustified', '-', 'included provider(s) that nothing receives anything from', 'unjustified_finaldrop')],
                           lambda c: any(f['inc'] == '0' and int(f['id']) < 900 for f in c.s7_funcs()), rule, extra)
 
 
